@@ -426,6 +426,26 @@ def _len_relative_range(body, s, base):
     return None
 
 
+def _str_prefix_guard(body, s, base):
+    """s[1..] on a str dominated by the true edge of s.starts_with(<one-byte char>): the string has
+    at least one byte and byte offset 1 is a char boundary"""
+    ix = body.origin(s.ops[1])
+    if not (ix[0] == "agg" and ix[1][0] == "adt" and ix[1][1].endswith("::RangeFrom") and len(ix[2]) == 1
+            and ix[2][0][0] == "lit" and ix[2][0][1] == 1):
+        return None
+    b = _peel_refs(base)
+    for g, cond, pol in _cmp_guards(body, s.bb):
+        c, p = cond, pol
+        while c[0] == "un" and c[1] == "Not":
+            c, p = c[2], not p
+        if not p or c[0] != "call" or not re.search(r"<impl str>::starts_with$", c[1]) or len(c[2]) != 2:
+            continue
+        ch = c[2][1]
+        if ch[0] == "lit" and isinstance(ch[1], int) and 0 <= ch[1] < 128 and FX.strip_sites(_peel_refs(c[2][0])) == FX.strip_sites(b):
+            return "guard starts_with(one-byte char %d) at bb%d implies len >= 1 and a char boundary at 1" % (ch[1], g)
+    return None
+
+
 def _fresh_arrayvec_push(F, s):
     """push onto an ArrayVec that is freshly constructed (new/default) in this body: safe when the
     number of push sites on that same fresh vector is within the constant capacity and none of them
@@ -491,6 +511,11 @@ def auto_discharge(F, s, cfg):
             s.sig = "%s(divisor %s)" % (s.kind, fmt(d, 120))
             s.toks = tokens(d)
         return None
+    if s.cls == "arith" and s.call is not None and s.call.decl.endswith("::from_str_radix") and len(s.ops) == 2:
+        r = body.origin(s.ops[1])
+        if r[0] in ("lit", "const") and isinstance(upper_bound(r), int) and 2 <= upper_bound(r) <= 36:
+            return "constant radix %d within 2..=36" % upper_bound(r)
+        return None
     if s.cls == "arith" and s.call is not None and re.search(r"::(div_ceil|next_multiple_of|div_euclid|rem_euclid)$", s.call.decl) \
             and len(s.ops) == 2 and re.search(r"<impl u(8|16|32|64|128|size)>", s.call.decl):
         # unsigned: the only panic is a zero divisor (div_ceil cannot overflow; next_multiple_of can, so it is excluded below)
@@ -500,7 +525,8 @@ def auto_discharge(F, s, cfg):
         return None
     if s.cls == "index" and s.call is not None and re.search(r"::(index|index_mut)$", s.call.decl) and len(s.ops) == 2:
         base = body.origin(s.ops[0])
-        why = _bitrange_index(F, s, base) or _guarded_range_index(body, s, base) or _len_relative_range(body, s, base)
+        why = _bitrange_index(F, s, base) or _guarded_range_index(body, s, base) or _len_relative_range(body, s, base) \
+            or _str_prefix_guard(body, s, base)
         if why:
             return why
         n = _ty_len(s.call.selfty) if s.call.selfty else None
